@@ -65,7 +65,7 @@ def b64_jobs(tier):
             defs = {"FN": fn, "LEN": L}
             for k in ("KF_B64_ENC_NUL", "KF_B64_DEC_NUL"):
                 if k in KF: defs[k] = None
-            out.append(J("b64-%s-L%d" % (nm, L), "b64.c", defs, L + 8,
+            out.append(J("b64-%s-L%d" % (nm, L), "b64.c", defs, max(L + 8, 4 * ((L + 2) // 3) + 5),
                          "base64 %s: source length %d (bytes symbolic), every destination capacity 0..required+1" % (nm, L),
                          "bounds of src/dst objects, error codes, reported size == required size, reported size suffices"))
     return out
